@@ -88,7 +88,7 @@ func c12PingE1(c *Ctx, bands *tables.Bands) {
 	const rule = "R6.ping-e1"
 	r.Rule(rule, "GetPingSlotFrequency (E1 on the real band object; DevAddr symbolic, beacon time = 128 s·q + r symbolic, int of 64 and of 32 bits): the region's fixed frequency, or downlink channel (DevAddr + floor(T/128 s)) mod N")
 	for _, cfg := range bands.Configs {
-		if cfg.Repeater || cfg.Dwell400 {
+		if (cfg.Repeater || cfg.Dwell400) && c.Tier != "thorough" {
 			continue // the ping-slot frequency does not depend on repeater compatibility or dwell time
 		}
 		reg, rerr := c.regional()
@@ -120,7 +120,7 @@ func c12PingE1(c *Ctx, bands *tables.Bands) {
 					defer func() { absint.IntBits = 64 }()
 					in := absint.NewInterp(c.Prog)
 					d := in.D
-					ifc, err := e1Band(in, cfg.Canon(), false, false)
+					ifc, err := e1Band(in, cfg.Canon(), cfg.Repeater, cfg.Dwell400)
 					if err != nil {
 						r.Unknown(rule, key, "", "band.GetConfig inside the interpreter's subset", err.Error())
 						return
@@ -225,7 +225,7 @@ func c12RX1FreqE1(c *Ctx, bands *tables.Bands) {
 	const rule = "R5.rx1freq-e1"
 	r.Rule(rule, "GetRX1FrequencyForUplinkFrequency (E1 on the real band object, symbolic frequency): uplink channel i maps to downlink channel i (mod N in the regions with fewer downlink channels)")
 	for _, cfg := range bands.Configs {
-		if cfg.Repeater || cfg.Dwell400 {
+		if (cfg.Repeater || cfg.Dwell400) && c.Tier != "thorough" {
 			continue
 		}
 		reg, rerr := c.regional()
@@ -246,7 +246,7 @@ func c12RX1FreqE1(c *Ctx, bands *tables.Bands) {
 		mod := fam.rx1ChannelMod()
 		in := absint.NewInterp(c.Prog)
 		d := in.D
-		ifc, err := e1Band(in, cfg.Canon(), false, false)
+		ifc, err := e1Band(in, cfg.Canon(), cfg.Repeater, cfg.Dwell400)
 		if err != nil {
 			r.Unknown(rule, key, "", "band.GetConfig inside the interpreter's subset", err.Error())
 			continue
